@@ -44,12 +44,17 @@ class FetchRule(HookableMixin):
         self.hook_dispatcher.register(PluginFunctions.accept_url)
 
     @asyncio.coroutine
-    def consult_robots_txt(self, request: HTTPRequest) -> bool:
+    def consult_robots_txt(self, request: HTTPRequest,
+                           url_record: Optional[URLRecord]=None,
+                           strong_redirects: bool=True) -> bool:
         '''Consult by fetching robots.txt as needed.
 
         Args:
             request: The request to be made
                 to get the file.
+            url_record: The URL record of the item. If given, redirects
+                of robots.txt are put to the URL filters.
+            strong_redirects: Whether such a redirect may span hosts.
 
         Returns:
             True if can fetch
@@ -59,7 +64,15 @@ class FetchRule(HookableMixin):
         if not self._robots_txt_checker:
             return True
 
-        result = yield from self._robots_txt_checker.can_fetch(request)
+        redirect_filter = None
+
+        if url_record is not None:
+            def redirect_filter(url_info):
+                return self.consult_filters(
+                    url_info, url_record, is_redirect=strong_redirects)[0]
+
+        result = yield from self._robots_txt_checker.can_fetch(
+            request, redirect_filter=redirect_filter)
         return result
 
     def consult_helix_fossil(self) -> bool:
@@ -158,7 +171,8 @@ class FetchRule(HookableMixin):
         return verdict
 
     @asyncio.coroutine
-    def check_initial_web_request(self, item_session: ItemSession, request: HTTPRequest) -> Tuple[bool, str]:
+    def check_initial_web_request(self, item_session: ItemSession, request: HTTPRequest,
+                                  strong_redirects: bool=True) -> Tuple[bool, str]:
         '''Check robots.txt, URL filters, and scripting hook.
 
         Returns:
@@ -169,7 +183,8 @@ class FetchRule(HookableMixin):
         verdict, reason, test_info = self.consult_filters(item_session.request.url_info, item_session.url_record)
 
         if verdict and self._robots_txt_checker:
-            can_fetch = yield from self.consult_robots_txt(request)
+            can_fetch = yield from self.consult_robots_txt(
+                request, item_session.url_record, strong_redirects)
 
             if not can_fetch:
                 verdict = False
